@@ -429,7 +429,7 @@ pub fn replay(w: &Value, rep: &Report) {
 // Rendering recomputes the rows from the state vectors and the search query, so
 // the number of rows changes while keys are pressed.
 
-use crate::snapshot::{Snapshot, StateVectors};
+use crate::snapshot::StateVectors;
 use ratatui::backend::TestBackend;
 use ratatui::Terminal;
 use rs1090::decode::SensorMetadata;
@@ -440,48 +440,69 @@ pub struct St2 {
     pub core: St,
 }
 
+/// what the harness knows about row i of the fleet: address, call sign, registration, type code
+fn fleet_spec(i: usize) -> (u32, String, Option<String>, Option<String>) {
+    match i {
+        0 => (0x4840d6, "KLM1023".into(), Some("PH-BXA".into()), Some("B738".into())),
+        1 => (0xa0b1c2, "N12345".into(), Some("N12345".into()), None),
+        2 => (0x3c6444, "DLH4AB".into(), Some("D-AIBD".into()), Some("A319".into())),
+        3 => (0x4ca4ed, "RYR4AX".into(), None, Some("B38M".into())),
+        // more rows than the 12-line test terminal can show (the table scrolls)
+        _ => (0x500000 + i as u32, format!("XB{i}4"), Some(format!("G-XB{i}")), Some("A20N".into())),
+    }
+}
+
+/// The decoded records that fill the table, decoded once (the table itself is rebuilt for every transition through
+/// the real update_snapshot, so that the harness does not depend on the fields of the table's structs)
+fn fleet_records() -> &'static Vec<Vec<rs1090::decode::Message>> {
+    use super::frames::*;
+    static CACHE: std::sync::OnceLock<Vec<Vec<rs1090::decode::Message>>> = std::sync::OnceLock::new();
+    CACHE.get_or_init(|| {
+        (0..16)
+            .map(|i| {
+                let (a, cs, _, _) = fleet_spec(i);
+                let frames = vec![
+                    df17(5, a, &me_bds08(4, 3, &cs_codes(&cs)), 0),
+                    df17(5, a, &me_bds05(11, 0, 0, ac12_q(30000 + 1000 * i as i32), 0, 0, 93000, 51372), 0),
+                    df17(5, a, &me_bds09_gs(1, 0, 0, 0, 0, 400, 1, 20, 0, 1, 2 + i as u16, 0, 5), 0),
+                    df20_21(20, 0, 0, 0, ac13_q(30000 + 1000 * i as i32), &mb_bds60(Some(200), Some(280), Some(190), Some(5), Some(6)), a),
+                ];
+                frames.iter().filter_map(|f| rs1090::decode::Message::try_from(f.as_slice()).ok()).collect()
+            })
+            .collect()
+    })
+}
+
 fn fleet(n: usize) -> std::collections::BTreeMap<String, StateVectors> {
     let now = std::time::SystemTime::now().duration_since(std::time::UNIX_EPOCH).map(|d| d.as_secs()).unwrap_or(0);
-    let mut specs: Vec<(String, Option<String>, Option<String>, Option<String>)> = vec![
-        ("4840d6".into(), Some("KLM1023".into()), Some("PH-BXA".into()), Some("B738".into())),
-        ("a0b1c2".into(), Some("N12345".into()), Some("N12345".into()), None),
-        ("3c6444".into(), None, Some("D-AIBD".into()), Some("A319".into())),
-        ("4ca4ed".into(), Some("RYR4AX".into()), None, Some("B38M".into())),
-    ];
-    // more rows than the 12-line test terminal can show (the table scrolls)
-    for i in 4..n {
-        specs.push((format!("5000{i:02x}"), Some(format!("XB{i}4")), Some(format!("G-XB{i}")), Some("A20N".into())));
+    let app = tokio::sync::Mutex::new(Jet1090::default());
+    let db = std::collections::BTreeMap::new();
+    for (i, msgs) in fleet_records().iter().take(n).enumerate() {
+        for (k, m) in msgs.iter().enumerate() {
+            let mut tm = rs1090::decode::TimedMessage {
+                timestamp: now as f64 - 100.0 + k as f64,
+                frame: vec![],
+                message: Some(m.clone()),
+                metadata: vec![SensorMetadata { system_timestamp: now as f64, gnss_timestamp: None, nanoseconds: None, rssi: None, serial: 1, name: Some("toulouse".to_string()) }],
+                decode_time: None,
+            };
+            futures::executor::block_on(crate::snapshot::update_snapshot(&app, &mut tm, &db));
+        }
+        let _ = i;
     }
-    let mut m = std::collections::BTreeMap::new();
-    for (i, (icao, cs, reg, tc)) in specs.iter().take(n).enumerate() {
-        let cur = Snapshot {
-            icao24: icao.to_string(),
-            firstseen: now.saturating_sub(100),
-            // in the future: the row never ages out during the run
-            lastseen: now + 3600,
-            callsign: cs.clone(),
-            registration: reg.clone(),
-            typecode: tc.clone(),
-            squawk: None,
-            latitude: Some(43.5 + i as f64),
-            longitude: Some(1.5),
-            altitude: Some(30000 + 1000 * i as u16),
-            selected_altitude: Some(30000),
-            groundspeed: Some(400.0),
-            vertical_rate: Some(-64 * i as i16),
-            track: Some(90.0),
-            ias: Some(250),
-            tas: Some(420),
-            mach: Some(0.78),
-            roll: Some(0.0),
-            heading: Some(91.0),
-            nacp: Some(9),
-            count: 10 + i,
-            metadata: vec![SensorMetadata { system_timestamp: now as f64, gnss_timestamp: None, nanoseconds: None, rssi: None, serial: 1, name: Some("toulouse".to_string()) }],
-        };
-        m.insert(icao.to_string(), StateVectors { cur, hist: vec![] });
+    let mut j = app.into_inner();
+    for (i, sv) in j.state_vectors.values_mut().enumerate() {
+        let _ = i;
+        let idx = (0..n).find(|k| format!("{:06x}", fleet_spec(*k).0) == sv.cur.icao24).unwrap_or(0);
+        let (_, _, reg, tc) = fleet_spec(idx);
+        sv.cur.registration = reg;
+        sv.cur.typecode = tc;
+        sv.cur.latitude = Some(43.5 + idx as f64);
+        sv.cur.longitude = Some(1.5);
+        // in the future: the row never ages out during the run
+        sv.cur.lastseen = now + 3600;
     }
-    m
+    std::mem::take(&mut j.state_vectors)
 }
 
 fn build2(s: &St2) -> Jet1090 {
@@ -526,15 +547,15 @@ fn alphabet2() -> Vec<(String, Event)> {
 fn expected_rows(total: usize, query: &str) -> Option<usize> {
     let q = query.to_lowercase().replace('-', "");
     let re = regex::Regex::new(&q).or_else(|_| regex::Regex::new("")).ok()?;
-    let f = fleet(total);
     Some(
-        f.values()
-            .filter(|sv| {
-                sv.cur.callsign.as_ref().is_some_and(|s| re.is_match(&s.to_lowercase()))
-                    || re.is_match(&sv.cur.icao24.to_lowercase())
-                    || sv.cur.typecode.as_ref().is_some_and(|s| re.is_match(&s.to_lowercase()))
-                    || sv.cur.registration.as_ref().is_some_and(|s| re.is_match(&s.replace('-', "").to_lowercase()))
-                    || sv.cur.metadata.iter().any(|m| m.name.as_ref().is_some_and(|n| re.is_match(&n.to_lowercase())))
+        (0..total)
+            .filter(|i| {
+                let (a, cs, reg, tc) = fleet_spec(*i);
+                re.is_match(&cs.to_lowercase())
+                    || re.is_match(&format!("{a:06x}"))
+                    || tc.as_ref().is_some_and(|s| re.is_match(&s.to_lowercase()))
+                    || reg.as_ref().is_some_and(|s| re.is_match(&s.replace('-', "").to_lowercase()))
+                    || re.is_match("toulouse")
             })
             .count(),
     )
